@@ -43,7 +43,7 @@ func c17Processor(db *gorm.DB, i int) *gorm.VerifProcessor {
 }
 
 type c17Op struct {
-	kind    int // 0 Register, 1 Before(x).Register, 2 After(x).Register, 3 Replace, 4 Remove, 5 Before(x).After(y).Register
+	kind    int // 0 Register, 1 Before(x).Register, 2 After(x).Register, 3 Replace, 4 Remove, 5 Before(x).After(y).Register, 6 Before(x).Replace, 7 After(x).Replace
 	name    string
 	anchor  string
 	anchor2 string // After anchor of kind 5
@@ -101,8 +101,8 @@ func c17Describe(op c17Op, prev []c17Op, base []string) string {
 		}
 		return "fresh"
 	}
-	k := []string{"Register", "Before", "After", "Replace", "Remove", "BeforeAfter"}[op.kind]
-	if op.kind == 1 || op.kind == 2 {
+	k := []string{"Register", "Before", "After", "Replace", "Remove", "BeforeAfter", "BeforeReplace", "AfterReplace"}[op.kind]
+	if op.kind == 1 || op.kind == 2 || op.kind == 6 || op.kind == 7 {
 		return k + "(" + cls(op.anchor) + ")." + cls(op.name)
 	}
 	if op.kind == 5 {
@@ -142,8 +142,8 @@ func H_C17_Register(shape int) {
 	failed := false
 	for k := 0; k < nops; k++ {
 		tag := "op" + string([]byte{byte('0' + k)})
-		kind := verifrt.Intn(tag+"_kind", 0, 5)
-		kind = verifrt.Concretize(kind, 0, 5)
+		kind := verifrt.Intn(tag+"_kind", 0, 7)
+		kind = verifrt.Concretize(kind, 0, 7)
 		op := c17Op{kind: kind}
 		op.name = c17Name(tag+"_name", builtins, false)
 		gen++
@@ -181,6 +181,12 @@ func H_C17_Register(shape int) {
 				}
 			}
 		}
+		if kind == 6 || kind == 7 {
+			// a positioned Replace: the replacement takes the replaced callback's
+			// position and asks for a side of a named callback ('*' is not offered here)
+			op.anchor = c17Name(tag+"_anchor", builtins, false)
+			verifrt.Assume(op.anchor != op.name)
+		}
 		verifrt.Tag(c17Describe(op, ops, base))
 		var e error
 		switch kind {
@@ -196,6 +202,10 @@ func H_C17_Register(shape int) {
 			e = p.Remove(op.name)
 		case 5:
 			e = p.Before(op.anchor).After(op.anchor2).Register(op.name, mk(op.name))
+		case 6:
+			e = p.Before(op.anchor).Replace(op.name, mk(op.name+"!"))
+		case 7:
+			e = p.After(op.anchor).Replace(op.name, mk(op.name+"!"))
 		}
 		if e != nil {
 			failed = true
@@ -205,7 +215,7 @@ func H_C17_Register(shape int) {
 		switch kind {
 		case 0, 1, 2, 5:
 			live = append(live, op.name)
-		case 3:
+		case 3, 6, 7:
 			if i := indexOf(live, op.name); i >= 0 {
 				live[i] = op.name + "!"
 			} else if j := indexOf(live, op.name+"!"); j < 0 {
@@ -294,7 +304,7 @@ func H_C17_Register(shape int) {
 			}
 			continue
 		}
-		if op.kind != 1 && op.kind != 2 {
+		if op.kind != 1 && op.kind != 2 && op.kind != 6 && op.kind != 7 {
 			continue
 		}
 		me := pos(op.name)
@@ -320,7 +330,7 @@ func H_C17_Register(shape int) {
 		if a < 0 {
 			continue
 		}
-		if op.kind == 1 {
+		if op.kind == 1 || op.kind == 6 {
 			verifrt.Assert(me < a, "C17.before")
 		} else {
 			verifrt.Assert(me > a, "C17.after")
